@@ -611,7 +611,18 @@ fn run_case(i: usize, c: &Case) {
                 let cc = super::util::comp_of_code(code).unwrap();
                 // the declared codec always, the others as garbage input
                 let tag = if code == comp { "own" } else { "other" };
-                guard(i, &format!("Directory::from_bytes/{tag}"), || Directory::from_bytes(b, cc).map(|d| d.len()).ok());
+                // a directory that parses is also queried: ids in front of, at and behind its entries
+                guard(i, &format!("Directory::from_bytes/{tag}"), || {
+                    Directory::from_bytes(b, cc)
+                        .map(|d| {
+                            let mut found = 0usize;
+                            for id in [0u64, 1, 2, 127, 128, 1 << 32, u64::MAX - 1, u64::MAX] {
+                                found += usize::from(d.find_entry_for_tile_id(id).is_some());
+                            }
+                            (d.len(), found)
+                        })
+                        .ok()
+                });
                 guard(i, &format!("Directory::from_async_reader/{tag}"), || block_on(Directory::from_async_reader(&mut futures::io::Cursor::new(b), b.len() as u64, cc)).map(|d| d.len()).ok());
                 guard(i, &format!("decompress_all/{tag}"), || decompress_all(cc, b).map(|d| d.len()).ok());
             }
